@@ -171,20 +171,32 @@ nsync_note nsync_note_new (nsync_note parent,
 			   nsync_time abs_deadline) {
 	nsync_note n = (nsync_note) malloc (sizeof (*n));
 	if (n != NULL) {
+		int notified;
 		memset ((void *) n, 0, sizeof (*n));
 		nsync_dll_init_ (&n->parent_child_link, n);
 		set_expiry_time (n, abs_deadline);
-		if (!nsync_note_is_notified (n) && parent != NULL) {
-			nsync_time parent_time;
+		notified = nsync_note_is_notified (n);
+		/* The expiry time of *n is the minimum of abs_deadline and the
+		   deadlines of its ancestors, whether or not *n starts out
+		   notified.  parent->expiry_time is already that minimum for
+		   *parent, and is never modified once nsync_note_new() has
+		   returned *parent, so no lock is needed to read it. */
+		if (parent != NULL &&
+		    nsync_time_cmp (parent->expiry_time, abs_deadline) < 0) {
+			set_expiry_time (n, parent->expiry_time);
+		}
+		if (!notified && parent != NULL) {
 			nsync_mu_lock (&parent->note_mu);
-			parent_time = NOTIFIED_TIME (parent);
-			if (nsync_time_cmp (parent_time, abs_deadline) < 0) {
-				set_expiry_time (n, parent_time);
-			}
-			if (nsync_time_cmp (parent_time, nsync_time_zero) > 0) {
+			if (nsync_time_cmp (NOTIFIED_TIME (parent), nsync_time_zero) > 0) {
 				n->parent = parent;
 				parent->children = nsync_dll_make_last_in_list_ (parent->children,
 					&n->parent_child_link);
+			} else {
+				/* *parent is already notified, so *n starts out
+				   notified and is not linked to *parent.  The flag
+				   records that, so that expiry_time can keep the
+				   deadline. */
+				ATM_STORE_REL (&n->notified, 1);
 			}
 			nsync_mu_unlock (&parent->note_mu);
 		}
